@@ -710,6 +710,9 @@ class Output(object):
             #                            (self._address, address_dict['network'], self.network.name))
             self.public_hash = address_dict['public_key_hash_bytes']
             self.witness_type = address_dict['witness_type']
+            if address_dict['witver'] and not (address_dict['witver'] == 1 and len(self.public_hash) == 32):
+                raise TransactionError("Address %s has witness version %d with a %d byte program, which is not "
+                                       "supported" % (self._address, address_dict['witver'], len(self.public_hash)))
         if not self.encoding:
             self.encoding = 'bech32'
             if self.script_type in ['p2pkh', 'p2sh', 'p2pk'] or self.witness_type == 'legacy':
